@@ -418,6 +418,7 @@ void runHugeCase(uint64_t c, size_t n, const char *tname) {
     snprintf(d, sizeof d, "Array<%s> of %zu elements (%.1f GiB)", tname, n, (double) (n * sizeof(T)) / (1ULL << 30));
     gHist = d;
     rt::crumb("%s", d);
+    if (rt::memAvailableBytes() < 3 * n * sizeof(T) + (2ULL << 30)) { ++C.hugeSkipped; return; }   // up to three such arrays are alive at once
     T *src = (T *) mmap(nullptr, n * sizeof(T), PROT_READ | PROT_WRITE, MAP_PRIVATE | MAP_ANONYMOUS | MAP_NORESERVE, -1, 0);
     if (src == MAP_FAILED) { ++C.hugeSkipped; return; }   // not enough address space or memory here: nothing to judge
     std::vector<size_t> marks;
